@@ -40,20 +40,24 @@ EXTENDS EnvKit, TLCExt
 CONSTANT Cfg   \* [rows, cols, walls (seq of seq, 1 = wall), player_start, ghost_spawns, power_ups (0-based <<row, col>>
                \*  as sequences), time_limit, time_limit_given, scatter_time, maze]
 
-R == Cfg.rows
-C == Cfg.cols
+(* Constant-level definitions are evaluated once by TLC; each mentions Cfg a bounded number of times (in trace
+   validation Cfg is read from the trace file, which is expensive before TLC has cached it). *)
+R == TLCEval(Cfg.rows)
+C == TLCEval(Cfg.cols)
+Walls == TLCEval(Cfg.walls)
 Actions == 0..4
 NOOP == 4
 Dirs == 0..3
-ScatterTime == Cfg.scatter_time          \* 30 in the documentation; small in the bounded models
-TimeLimit == Cfg.time_limit              \* as requested by the harness (1000 when the argument is not given)
+ScatterTime == TLCEval(Cfg.scatter_time)          \* 30 in the documentation; small in the bounded models
+TimeLimit == TLCEval(Cfg.time_limit)              \* as requested by the harness (1000 when the argument is not given)
 
 Cell == (0..(R - 1)) \X (0..(C - 1))
-IsWall(rc) == Cfg.walls[rc[1] + 1][rc[2] + 1] = 1
+IsWall(rc) == Walls[rc[1] + 1][rc[2] + 1] = 1
 FreeCells == TLCEval({ rc \in Cell : ~IsWall(rc) })      \* constant: evaluated once
 CellOf(pair) == <<pair[1], pair[2]>>                                   \* JSON [r, c] -> cell
-SpawnOf(k) == CellOf(Cfg.ghost_spawns[k])
-NGhosts == Len(Cfg.ghost_spawns)
+Spawns == TLCEval(Cfg.ghost_spawns)
+SpawnOf(k) == CellOf(Spawns[k])
+NGhosts == Len(Spawns)
 
 (* ---------- movement on the wrapping board ---------- *)
 Delta(d) == CASE d = 0 -> <<-1, 0>> [] d = 1 -> <<0, -1>> [] d = 2 -> <<1, 0>> [] d = 3 -> <<0, 1>>
@@ -122,7 +126,7 @@ ANoOverlap(m) == \A k \in 1..NGhosts : m.ghosts[k] = m.player => (m.ghosts[k] = 
 (***************************************************************************)
 RECURSIVE Pow2(_)
 Pow2(n) == IF n = 0 THEN 1 ELSE 2 * Pow2(n - 1)
-RowBits(r) == SumTo([c \in 1..C |-> IF Cfg.walls[r][c] = 1 THEN 0 ELSE Pow2(c - 1)], C)
+RowBits(r) == SumTo([c \in 1..C |-> IF Walls[r][c] = 1 THEN 0 ELSE Pow2(c - 1)], C)
 GridOfMaze == TLCEval([shape |-> <<R, C>>, bits |-> [r \in 1..R |-> RowBits(r)], other |-> <<>>])   \* 1 = corridor, 0 = wall
 
 PosCell(pos) == <<pos.x, pos.y>>                                    \* Position(x = row, y = col)
@@ -152,7 +156,7 @@ WfPellets(s) ==
   /\ Cardinality(PelletCells(s)) >= Cardinality(FreeCells) - 1 - NGhosts   \* in every corridor cell (bar the start cells)
   /\ s.pellets = Len(s.pellet_locations.left)
 WfPowers(s) ==
-  /\ PowerCells(s) = { CellOf(Cfg.power_ups[j]) : j \in 1..Len(Cfg.power_ups) }
+  /\ PowerCells(s) = (LET pu == Cfg.power_ups IN { CellOf(pu[j]) : j \in 1..Len(pu) })
   /\ PowerCells(s) \subseteq FreeCells
   /\ Cardinality(PowerCells(s)) = Len(s.power_up_locations)
 WfCounters(s) == s.step_count = 0 /\ s.score = 0 /\ s.frightened_state_time = 0 /\ ~s.dead
